@@ -13,7 +13,10 @@ extern void vs_set_group(int g);
 extern int vs_group(void);
 extern void vs_set_skew(unsigned point, unsigned len);
 extern void vs_park(int logical, unsigned point, unsigned len);
-extern void vs_load_guide(const char *path, const unsigned *shared, unsigned n);
+struct vs_guide_roles {
+	unsigned p_alloc, p_precas, p_push, p_drain, p_extract, p_flag, p_anti_local, p_anti_remote, p_undo, p_rb_begin, p_netsend, p_netrecv;
+};
+extern void vs_load_guide(const char *path, const unsigned *shared, unsigned n, const struct vs_guide_roles *r);
 extern void vs_guide_tag(int tag);
 extern int vs_guide_status(unsigned long *pos, unsigned long *len, const char **why);
 extern int vs_guide_expect(void);
